@@ -116,6 +116,22 @@ func c10Zoo() []c10Key {
 	// the algorithm name in the text disagrees with the blob: parsers follow
 	// the blob, which is the (strong) RSA key
 	zoo = append(zoo, c10Key{Name: "ssh-textname-disagrees-with-blob", SSH: "ssh-ed25519 " + f[1] + "\n", Pub: good.Pub, Strong: true})
+	// ... and the other way round: a WEAK key in the blob under the text name of an algorithm that needs no size check.
+	// What is certified is the key in the blob, so these must be refused whatever the text says.
+	for _, wk := range []string{"rsa512_pub", "rsa1024_pub", "rsa2047_pub"} {
+		if sp, err := ssh.NewPublicKey(c10PubFixture(wk)); err == nil {
+			blob := strings.Fields(string(ssh.MarshalAuthorizedKey(sp)))[1]
+			for _, tag := range []string{"ssh-ed25519", "ecdsa-sha2-nistp256", "ecdsa-sha2-nistp384", "sk-ssh-ed25519@openssh.com"} {
+				zoo = append(zoo, c10Key{Name: "ssh-weak-" + wk + "-under-text-name-" + tag, SSH: tag + " " + blob + "\n", Pub: c10PubFixture(wk), Strong: false})
+			}
+		}
+	}
+	if d, ok := c10PubFixture("dsa1024_pub").(*dsa.PublicKey); ok {
+		if sp, err := ssh.NewPublicKey(d); err == nil {
+			blob := strings.Fields(string(ssh.MarshalAuthorizedKey(sp)))[1]
+			zoo = append(zoo, c10Key{Name: "ssh-weak-dsa1024-under-text-name-ssh-ed25519", SSH: "ssh-ed25519 " + blob + "\n", Pub: d, Strong: false})
+		}
+	}
 	sshRaw("ssh-truncated-b64", f[0]+" "+f[1][:len(f[1])/2]+"\n")
 	sshRaw("ssh-no-key", f[0]+" \n")
 	sshRaw("ssh-garbage-b64", f[0]+" AAAAB3NzaC1yc2EAAAADAQABAAAAAAAA\n")
